@@ -101,6 +101,23 @@ func (w *dirhashWorld) Check(c *core.Case) ([]core.Violation, bool) {
 		}
 	}
 	rec(0)
+	if !exp.Refused && len(names) > 0 {
+		// history: a hash that fails half way through a file (read error), then the same set again
+		calls := 0
+		failing := func(n string) (io.ReadCloser, error) {
+			calls++
+			if calls == len(names) {
+				return io.NopCloser(io.MultiReader(bytes.NewReader([]byte("partial content")), errReader{})), nil
+			}
+			return io.NopCloser(bytes.NewReader(contents[n])), nil
+		}
+		if _, err := dirhash.Hash1(append([]string(nil), names...), failing); err == nil {
+			vs = append(vs, core.Violation{Sig: "set:read-error-ignored", What: fmt.Sprintf("Hash1(%q) succeeds although reading a file fails half way", names), Case: c})
+		}
+		if got, err := dirhash.Hash1(append([]string(nil), names...), open); err != nil || got != want {
+			vs = append(vs, core.Violation{Sig: "set:after-failure", What: fmt.Sprintf("after a Hash1 call that failed on a read error, Hash1(%q) = %s (%v), the documented formula gives %s", names, got, err, want), Case: c})
+		}
+	}
 	if !exp.Refused {
 		if msg := sharedListing(names, contents); msg != "" {
 			vs = append(vs, core.Violation{Sig: "set:shared-listing", What: msg, Case: c})
@@ -148,6 +165,10 @@ func sharedListing(names []string, contents map[string][]byte) string {
 	}
 	return ""
 }
+
+type errReader struct{}
+
+func (errReader) Read([]byte) (int, error) { return 0, fmt.Errorf("read error") }
 
 func formulaHashSorted(names []string, contents map[string][]byte) string {
 	s := append([]string(nil), names...)
